@@ -1147,7 +1147,7 @@ func TestDecode(t *testing.T) {
 	o := &tgen.Opts{Small: true, NoWideIDs: evid.KnownActive(classWideIDs)}
 	// While the allocation / short-read defects are listed every few cases cost
 	// a worker restart or a stall; on a tree without them a case takes ~0.2 ms.
-	n := 12000
+	n := 9000
 	if evid.KnownActive(classAlloc) || evid.KnownActive(classShortRead) {
 		n = 500
 	}
